@@ -64,8 +64,13 @@ func init() {
 		Run: func(c *eng.Ctx) {
 			ruleIndexMapShape(c)
 			ruleBloomLayout(c)
+			ruleChainWalkComplete(c)
 		},
 		Controls: []Control{
+			{Name: "values-with-id-stop-at-foreign-entry", File: "internal/repository/index/indexmap.go",
+				Old: "			ei = e.next\n			if e.id != id {\n				continue\n			}\n			if !yield(e) {", New: "			ei = e.next\n			if e.id != id {\n				return\n			}\n			if !yield(e) {", Rule: "chain-walk-complete"},
+			{Name: "firstindex-returns-first-hit", File: "internal/repository/index/indexmap.go",
+				Old: "			idx = int(cur)\n		}\n	}\n	return idx", New: "			idx = int(cur)\n			break\n		}\n	}\n	return idx", Rule: "chain-walk-complete"},
 			{Name: "hash-before-grow", File: "internal/repository/index/indexmap.go",
 				Old: "	m.preallocate(int(m.numentries) + 1)\n\n	h := m.hash(id)\n	e, idx := m.newEntry()", New: "	h := m.hash(id)\n	m.preallocate(int(m.numentries) + 1)\n\n	e, idx := m.newEntry()", Rule: "indexmap-shape"},
 			{Name: "get-trusts-bloom-filter", File: "internal/repository/index/indexmap.go",
